@@ -346,3 +346,99 @@ Example C13_changed_body_rejected :
   run_named coll_env_gen coll_fns_toic_copy n_to_ic None [GvItem (cx_page [cx_a])]
     = Ok ([GvPtr OFresh (Some (vitems (Some [cx_a]))); GvNil], None).
 Proof. repeat match goal with |- _ /\ _ => split end; vm_compute; reflexivity. Qed.
+
+(* ==================================================================================================================
+   ---- members whose ids lie OUTSIDE the plain URL grammar (builder b47) ----
+   Everything above is about the containers over ItemsEqual / IRI.Equals as modelled over the plain URL grammar
+   (items_eqb over ieq, iri_member_eqb over iri_eqb).  For members whose ids carry percent-escapes, userinfo, IP
+   literals or bytes >= 0x80 that model is not what the code does (it compares such ids by the string fast path only).
+   The definitions of Model/Coll.v are parametric in the IRI comparison (module CoG; the names used above are the
+   instance with iri_eqb) and so are the lemmas of Proofs/CollP.v / CollIrisP.v (modules CoGP, CiGP).  Model/CollU.v
+   instantiates THE SAME definitions with iri_equ (the real IRI.Equals on all byte strings, Model/IriEqU.v) over
+   ieq_u (Model/EqualU.v); the correspondence check runs c_run_u against the real containers on pools of such members
+   (harness/c13u.go).  "Items of distinct identity" has its decidable form on the wide domain: distinct_ids_u = every
+   member an IRI or a non-link struct, every id in iri_dom_u, normal forms (host with port, cleaned decoded path,
+   decoded query parameters) pairwise different. *)
+From AP.Model Require Import IriNf Fold UrlU IriEqU EqualU CollU.
+From AP.Proofs Require Import IriUP CollUP.
+
+(* the generic statement both instances come from: for EVERY comparison, a pool on which the induced item equality
+   is the identity of indices refines the insertion-ordered set - the five item containers *)
+Theorem C13_refines_generic : forall (ideq : bytes -> bytes -> bool -> bool) pool,
+  (forall i j, i < length pool -> j < length pool ->
+     CoG.items_eqb ideq (pget pool i) (pget pool j) = Nat.eqb i j) ->
+  (forall i, i < length pool -> pget pool i <> INil) ->
+  forall c ops, c <> CIRIs -> Forall (fun o => op_idx o < length pool) ops ->
+  forall s, wf (length pool) s ->
+  CoG.c_run ideq pool c (map (pget pool) s) ops = (map (pget pool) (fst (s_run s ops)), snd (s_run s ops)) /\
+  wf (length pool) (fst (s_run s ops)) /\ fst (s_run s ops) = fold_left s_step ops s.
+Proof. exact CoGP.refines. Qed.
+
+Theorem C13_refines_u : forall pool,
+  (forall i j, i < length pool -> j < length pool ->
+     items_eqb_u (pget pool i) (pget pool j) = Nat.eqb i j) ->
+  (forall i, i < length pool -> pget pool i <> INil) ->
+  forall c ops, c <> CIRIs -> Forall (fun o => op_idx o < length pool) ops ->
+  forall s, wf (length pool) s ->
+  c_run_u pool c (map (pget pool) s) ops = (map (pget pool) (fst (s_run s ops)), snd (s_run s ops)) /\
+  wf (length pool) (fst (s_run s ops)) /\ fst (s_run s ops) = fold_left s_step ops s.
+Proof. exact refines_u. Qed.
+
+Theorem C13_refines_items_equal_u : forall pool c ops,
+  distinct_pool_u pool = true -> c <> CIRIs -> Forall (fun o => op_idx o < length pool) ops ->
+  c_run_u pool c [] ops = (map (pget pool) (fold_left s_step ops []), snd (s_run [] ops)) /\
+  NoDup (fold_left s_step ops []).
+Proof. exact refines_items_equal_u. Qed.
+
+Theorem C13_distinct_pool_u : forall pool, distinct_pool_u pool = true ->
+  forall i j, i < length pool -> j < length pool -> items_eqb_u (pget pool i) (pget pool j) = Nat.eqb i j.
+Proof. exact distinct_pool_u_eq. Qed.
+
+(* in the words of the property: ids in the wide domain with pairwise different normal forms *)
+Theorem C13_distinct_ids_u : forall pool, distinct_ids_u pool = true -> distinct_pool_u pool = true.
+Proof. exact distinct_ids_pool_u. Qed.
+
+(* the IRI list *)
+Theorem C13_refines_iris_u : forall pool,
+  (forall i, i < length pool -> is_nil (pget pool i) = false) ->
+  (forall i, i < length pool -> is_nil (IIri false (lnk (pget pool i))) = false) ->
+  (forall i j, i < length pool -> j < length pool ->
+     iri_equ (lnk (pget pool j)) (lnk (pget pool i)) false = Nat.eqb i j) ->
+  forall ops, Forall (fun o => op_idx o < length pool) ops ->
+  forall s, wf (length pool) s ->
+  c_run_u pool CIRIs (map (shown pool) s) ops = (map (shown pool) (fst (si_run s ops)), snd (si_run s ops)) /\
+  wf (length pool) (fst (si_run s ops)) /\ fst (si_run s ops) = fold_left si_step ops s.
+Proof. exact refines_iris_u. Qed.
+Theorem C13_refines_iris_pool_u : forall pool ops,
+  iris_pool_u pool = true -> Forall (fun o => op_idx o < length pool) ops ->
+  c_run_u pool CIRIs [] ops = (map (shown pool) (fold_left si_step ops []), snd (si_run [] ops)) /\
+  NoDup (fold_left si_step ops []).
+Proof. exact refines_iris_pool_u. Qed.
+Theorem C13_iris_pool_of_distinct_u : forall pool,
+  distinct_pool_u pool = true -> forallb (fun x => negb (is_nil (IIri false (lnk x)))) pool = true ->
+  iris_pool_u pool = true.
+Proof. exact distinct_pool_iris_u. Qed.
+
+(* non-vacuity: five members of pairwise distinct identity that LOOK alike - an escaped letter / an escaped percent
+   sign, a host behind userinfo, an IPv6 literal with zone on two ports, a path that is not UTF-8 - none of whose ids
+   the plain grammar holds; the pool conditions hold; a history runs as specified, and appending ANOTHER PRESENTATION
+   of a member (pool entry 5 = entry 0 in other clothes) changes nothing *)
+Definition ex_pool_u : list item :=
+  [IIri false (B "https://example.com/users/%41lice");
+   IObj true KObject [(F_ID, FStr (B "https://example.com/users/%2541lice")); (F_Type, FStr (B "Note"))];
+   IObj true KActor [(F_ID, FStr (B "https://example.com@evil.example/users/alice")); (F_Type, FStr (B "Person"))];
+   IObj false KObject [(F_ID, FStr (B "http://[fe80::1%25eth0]:8080/a%FF")); (F_Type, FStr (B "Note"))];
+   IIri false (B "http://[fe80::1%25eth0]:8081/a%FF")].
+Example C13_example_pool_u :
+  distinct_ids_u ex_pool_u = true /\ distinct_pool_u ex_pool_u = true /\ iris_pool_u ex_pool_u = true /\
+  forallb (fun x => negb (iri_dom (lnk x))) ex_pool_u = true.
+Proof. repeat split; vm_compute; reflexivity. Qed.
+Example C13_example_history_u :
+  c_run_u ex_pool_u COrdered []
+    [OpAppend 1; OpAppend 0; OpAppend 1; OpContains 0; OpRemove 1; OpContains 1; OpAppend 3; OpAppend 4; OpContains 2] =
+  (map (pget ex_pool_u) [0; 3; 4],
+   [(1, None); (2, None); (2, None); (2, Some true); (1, None); (1, Some false); (2, None); (3, None); (3, Some false)]) /\
+  c_run_u (ex_pool_u ++ [IObj true KActor [(F_ID, FStr (B "HTTPS://bob@EXAMPLE.com/users/./alice/")); (F_Type, FStr (B "Person"))]])
+    CItemCollection [] [OpAppend 0; OpAppend 5; OpContains 5; OpRemove 5; OpContains 0] =
+  ([], [(1, None); (1, None); (1, Some true); (0, None); (0, Some false)]).
+Proof. split; vm_compute; reflexivity. Qed.
